@@ -6,8 +6,7 @@ def run(tier, replay=None):
     v = Verdict("C12", tier)
     wd = workdir("c12")
     builds = [("default", "")]
-    if tier == "thorough":
-        builds.append(("GF_LARGE_TABLES", "GF_LARGE_TABLES"))
+    builds.append(("GF_LARGE_TABLES", "GF_LARGE_TABLES"))       # the property names this build option explicitly
     cov = {"evaluations": 0, "distinct_nontrivial": 0, "exhaustive": True, "builds": [],
            "rule": "every (a,b) in [0,255]^2 through gf_mul, every a through gf_inv, every constant c through "
                    "gf_vect_mul_init / ec_init_tables_base / ec_init_tables (dispatched) / ec_init_tables_gfni; each recorded value "
